@@ -411,8 +411,10 @@ prop('C18', [
     'path-sensitive sign/role dataflow on accessors and exporters')
 prop('C19', [
     optab.r_optab_backends,
+    # (the pure-Python handle class is the other side of the comparison:
+    # its operator methods must have the meaning the wrappers are held to)
     optab.r_optab_functions({'dd.cudd', 'dd.cudd_zdd', 'dd.sylvan',
-                             'dd.buddy'}),
+                             'dd.buddy', 'dd.autoref'}),
     optab.r_quant_wrappers({'dd.cudd', 'dd.cudd_zdd', 'dd.sylvan'}),
     cyts.r_cyts,
     cyts.r_cache_tags,
